@@ -9,6 +9,9 @@ import (
 // every name ConvertToBuiltinT knows, plus "Integer", a plain class and a namespaced class
 var verifAtoms = append(append([]string{}, AllTypeNames...), "Integer", "Foo", "Ns::Foo")
 
+// union members that are themselves written in compact notation
+var verifCompound = []string{"[String]", "?Int", "[Foo]", "?Foo"}
+
 func verifAtom(name string) string {
 	return verifapi.Pick(verifapi.Int(name, 0, len(verifAtoms)-1), verifAtoms...)
 }
@@ -18,6 +21,11 @@ func verifNs(names ...string) string {
 	for _, n := range names {
 		if strings.Contains(n, "::") {
 			return "/namespaced-class-name"
+		}
+	}
+	for _, n := range names {
+		if strings.HasPrefix(n, "[") || strings.HasPrefix(n, "?") {
+			return "/compact-notation-member"
 		}
 	}
 	return "/plain-name"
@@ -47,7 +55,14 @@ func VerifNotation(n int) {
 	verifapi.Witness("a", a)
 
 	if n >= 2 {
-		b := verifapi.Pick(verifapi.Concrete(verifapi.Int("b", 0, len(verifAtoms)-1)), verifAtoms...)
+		all := append(append([]string{}, verifAtoms...), verifCompound...)
+		b := verifapi.Pick(verifapi.Concrete(verifapi.Int("b", 0, len(all)-1)), all...)
+		// "[T]|A" is unambiguous; "?T|A" is not (the prefix could bind the whole union), so
+		// ?-members only appear in second position
+		if strings.HasPrefix(b, "[") && verifapi.Concrete(verifapi.Int("swap", 0, 1)) == 1 {
+			a, b = b, a
+		}
+		verifapi.Witness("a", a)
 		verifapi.Witness("b", b)
 		// "A|B" == ["A","B"], as return type and as argument type
 		r1 := parseReturnType(MethodReturn{Type: TypeSpec{a + "|" + b}})
